@@ -11,6 +11,7 @@ import PacketVerif.Drv.Fastlog
 import PacketVerif.Drv.Dhcp4Srv
 import PacketVerif.Drv.Dhcp4File
 import PacketVerif.Drv.Dhcp4Opt
+import PacketVerif.Drv.Handlers
 open PV
 
 /-- dispatch one protocol line to the module that knows the op -/
@@ -31,7 +32,8 @@ def dispatch (line : String) : String :=
       Drv.Fastlog.handle,
       Drv.Dhcp4Srv.handle,
       Drv.Dhcp4File.handle,
-      Drv.Dhcp4Opt.handle
+      Drv.Dhcp4Opt.handle,
+      Drv.Handlers.handle
     ]
     match hs.findSome? (fun h => h cmd args) with
     | some r => r
